@@ -46,3 +46,60 @@ pub open spec fn part_ok(filepath: Seq<char>, len: u64, spec: Seq<char>, p: Cont
     &&& p.unit@ == "bytes"@
     &&& p.content_type@ == mime_of(filepath)
 }
+
+// ---------- the whole-file request "bytes=0-" that the static controller issues when the request has no Range header ----------
+pub open spec fn s_bytes0() -> Seq<char> { seq!['b', 'y', 't', 'e', 's', '=', '0', '-'] }
+pub proof fn lemma_no_char_no_sub(s: Seq<char>, c: char)
+    requires forall|i: int| 0 <= i < s.len() ==> #[trigger] s[i] != c,
+    ensures !has_sub(s, seq![c]),
+{
+    assert forall|k: int| 0 <= k && k + 1 <= s.len() implies #[trigger] s.subrange(k, k + 1) != seq![c] by {
+        assert(s.subrange(k, k + 1)[0] == s[k]);
+    }
+}
+pub proof fn lemma_whole_file_request()
+    ensures
+        range_specs(s_bytes0()) == seq![seq!['0', '-']],
+        rs_a(seq!['0', '-']) == seq!['0'],
+        rs_b(seq!['0', '-']).len() == 0,
+        strict_num(seq!['0']), num(seq!['0']) == 0,
+        has_prefix(s_bytes0(), "bytes="@),
+        split_spec(s_bytes0(), eq_sign()).len() == 2,
+{
+    let b = seq!['b', 'y', 't', 'e', 's'];
+    let z = seq!['0', '-'];
+    let e = Seq::<char>::empty();
+    lemma_no_char_no_sub(b, '=');
+    lemma_no_char_no_sub(z, '=');
+    lemma_no_char_no_sub(z, ',');
+    lemma_no_char_no_sub(seq!['0'], '-');
+    lemma_no_char_no_sub(e, '-');
+    assert(s_bytes0() =~= b + eq_sign() + z);
+    axiom_split_step(b, eq_sign(), z);
+    axiom_split_step(z, eq_sign(), e);
+    assert((seq![b] + seq![z])[1] == z);
+    axiom_split_step(z, comma(), e);
+    assert(z =~= seq!['0'] + hyphen() + e);
+    axiom_split_step(seq!['0'], hyphen(), e);
+    axiom_split_step(e, hyphen(), e);
+    let parts = rs_parts(z);
+    assert(parts == seq![seq!['0']] + seq![e]);
+    assert(parts[0] == seq!['0'] && parts[1] == e && parts.len() == 2);
+    axiom_trim(seq!['0']);
+    axiom_trim(e);
+    // trim("0") == "0": '0' is not white space
+    let s = seq!['0'];
+    let (a, bb) = choose|a: int, bb: int| 0 <= a <= bb <= s.len() && trim_spec(s) == s.subrange(a, bb)
+        && (forall|i: int| 0 <= i < a ==> is_ws(#[trigger] s[i])) && (forall|i: int| bb <= i < s.len() ==> is_ws(#[trigger] s[i]));
+    if a > 0 { assert(is_ws(s[0])); }
+    if bb < 1 { assert(is_ws(s[0])); }
+    assert(s.subrange(0, 1) =~= s);
+    assert(trim_spec(e) =~= e);
+    assert(is_digit('0'));
+    assert(all_digits(s));
+    reveal_with_fuel(dec_val, 2);
+    assert(dec_val(s) == 0) by { assert(s.drop_last() =~= e); }
+    lemma_strict_num(s);
+    reveal_strlit("bytes=");
+    assert(s_bytes0().subrange(0, 6) =~= "bytes="@);
+}
